@@ -36,7 +36,7 @@ class Prop(PoolProp):
     thorough_runs = 3000
     rule = ("FunctorMap: 1-4 workers, 1-3 consecutive calls on one instance with 0-10 items and chunk sizes 1-3 (incl. fewer "
             "items than workers, empty inputs, lazily produced input, every third result a falsy object; 40 % of the FunctorMap "
-            "runs take exactly n results and close the generator — judged by the oracle only); mul_p_map: 1-4 workers, 0-10 items, 1-2 calls; schedules "
+            "runs take exactly n results and close the generator — `Cfg.exact` in the model); mul_p_map: 1-4 workers, 0-10 items, 1-2 calls; schedules "
             "from uniform random walks, PCT-style priorities, caller-first / caller-last priorities and starvation of one "
             "worker; every step (operation, result, queue digest, enabled set) compared with the Lean model; oracle: returned "
             "sequence = [f(x) for x in data], the call terminates, no worker left running; non-trivial = at least 15 steps "
